@@ -66,7 +66,7 @@ var c03FilterRoutes = []struct{ name, tpl string }{
 func runC03(r *run) {
 	rg := newRng(r.seed)
 	gen := func(emit func(caseT)) {
-		tags := pongo2.VerifRegisteredTags()
+		tags := registeredTags()
 		filters := pongo2.VerifRegisteredFilters()
 		emitBan := func(kind, name, src string, files map[string]string, entryFile string, lazy bool) {
 			w := &world{}
@@ -113,6 +113,15 @@ func runC03(r *run) {
 				emitBan("tag", t, "{% extends \"par.tpl\" %}", map[string]string{"par.tpl": "<" + use + ">"}, "", false)
 				emitBan("tag", t, "{% import \"ml.tpl\" zx %}{{ zx() }}", map[string]string{"ml.tpl": "{% macro zx() export %}" + use + "{% endmacro %}"}, "", false)
 				emitBan("tag", t, "{% ssi \"sub.tpl\" parsed %}", map[string]string{"sub.tpl": use}, "", false)
+				// the referring tag with each of its options: an optional file that exists is a file
+				emitBan("tag", t, "{% include \"sub.tpl\" if_exists %}", map[string]string{"sub.tpl": use}, "", false)
+				emitBan("tag", t, "{% include \"sub.tpl\" with za=1 only %}", map[string]string{"sub.tpl": use}, "", false)
+				emitBan("tag", t, "{% include \"sub.tpl\" if_exists with za=1 %}", map[string]string{"sub.tpl": use}, "", false)
+				emitBan("tag", t, "{% import \"ml.tpl\" zx as zy %}{{ zy() }}", map[string]string{"ml.tpl": "{% macro zx() export %}" + use + "{% endmacro %}"}, "", false)
+				if t != "include" && t != "set" {
+					emitBan("tag", t, "{% set nm = \"sub.tpl\" %}{% include nm if_exists %}", map[string]string{"sub.tpl": use}, "", true)
+					emitBan("tag", t, "{% set nm = \"sub.tpl\" %}{% include nm if_exists with za=1 only %}", map[string]string{"sub.tpl": use}, "", true)
+				}
 				if t != "include" {
 					lazySrc := "{% set nm = \"sub.tpl\" %}{% include nm %}"
 					if t == "set" {
@@ -134,6 +143,10 @@ func runC03(r *run) {
 			emitBan("filter", f, "{% extends \"par.tpl\" %}", map[string]string{"par.tpl": "<" + use + ">"}, "", false)
 			emitBan("filter", f, "{% import \"ml.tpl\" zx %}{{ zx() }}", map[string]string{"ml.tpl": "{% macro zx() export %}" + use + "{% endmacro %}"}, "", false)
 			emitBan("filter", f, "{% set nm = \"sub.tpl\" %}{% include nm %}", map[string]string{"sub.tpl": use}, "", true)
+			emitBan("filter", f, "{% include \"sub.tpl\" if_exists %}", map[string]string{"sub.tpl": use}, "", false)
+			emitBan("filter", f, "{% include \"sub.tpl\" if_exists with za=1 only %}", map[string]string{"sub.tpl": use}, "", false)
+			emitBan("filter", f, "{% set nm = \"sub.tpl\" %}{% include nm if_exists %}", map[string]string{"sub.tpl": use}, "", true)
+			emitBan("filter", f, "{% ssi \"sub.tpl\" parsed %}", map[string]string{"sub.tpl": use}, "", false)
 		}
 		// the ban check belongs to the filter syntax, not to the places it is known to be written
 		// in: spellings that are (today) syntax errors or unusual must not compile either
@@ -303,7 +316,7 @@ func execC03(r *run, c caseT) {
 		bt, bf := map[string]bool{}, map[string]bool{}
 		known := func(kind, n string) bool {
 			if kind == "t" {
-				for _, x := range pongo2.VerifRegisteredTags() {
+				for _, x := range registeredTags() {
 					if x == n {
 						return true
 					}
